@@ -235,6 +235,93 @@ def r3(chk, prog):
     chk.samples.append({'truth_table_rows': n, 'atoms': sorted(want)})
 
 
+def r4_prefix(chk, prog):
+    """ArgumentKey::startsWith( other): true exactly when both long keys are non-empty and other's long key is a
+    prefix of this one - decided for all key texts from the meaning of the std::string operation the result is
+    based on (observation facts of Engine C): compare( 0, n, other) of the whole other word against the first
+    n characters; find( other, 0) == 0; rfind( other, 0) == 0.  An rfind without the position 0, a comparison over
+    the shorter of the two lengths etc. are different predicates and are reported."""
+    from ..bounds import Engine, Obj, St
+    from ..lin import Lin, lin, ge, le, lt, gt, eq, entails, feasible, TooBig
+    fs = [f for f in prog.functions if (f.classq or '') == 'celma::prog_args::detail::ArgumentKey'
+          and f.short == 'startsWith']
+    chk.require(len(fs) == 1, 'ArgumentKey::startsWith not found')
+    f = fs[0]
+    eng = Engine(prog, {'track_reads': True, 'inline': ('celma::prog_args::detail::ArgumentKey',), 'inline_depth': 2})
+    eng.root = f.name
+    st = St()
+    other = f.params[0]['name']
+    st.vars[other] = Obj(other, 'celma::prog_args::detail::ArgumentKey')
+    for o in ('this', other):
+        st.fields[(o, 'mWord')] = Obj(o + '.mWord', 'std::string')
+        eng.string_len(st, o + '.mWord')
+    m = st.fields[('this.mWord', 'length')]
+    n = st.fields[(other + '.mWord', 'length')]
+    finals = eng.exec_body(f, st)
+
+    def eqv(s, a, b):
+        return isinstance(a, Lin) and isinstance(b, Lin) and entails(s.cons, ge(a, b)) and entails(s.cons, le(a, b))
+
+    def sat(cons):
+        try:
+            return feasible(cons)
+        except TooBig:
+            return True
+    this_r, other_r = 'this.mWord.data', other + '.mWord.data'
+    count = 0
+    for s in finals:
+        if s.status != 'return' or not isinstance(s.ret, Lin):
+            chk.check(s.status == 'throw', 'R4', f.name, 'startsWith() returns a decided truth value', f.loc(),
+                      'status %s, value %r' % (s.status, s.ret))
+            continue
+        count += 1
+        truth = eqv(s, s.ret, lin(1))
+        falsy = eqv(s, s.ret, lin(0))
+        why = None
+        if truth:
+            # must imply: n >= 1, m >= 1, n <= m and the first n characters agree
+            ok = entails(s.cons, ge(n, 1)) and entails(s.cons, ge(m, 1))
+            occ0 = False
+            for g in s.ghost:
+                if g[0] == 'strcmp':
+                    (ra, pa, la), (rb, pb, lb), r = g[1:]
+                    if ra == other_r:
+                        (ra, pa, la), (rb, pb, lb) = (rb, pb, lb), (ra, pa, la)
+                    if ra == this_r and rb == other_r and eqv(s, r, lin(0)) and eqv(s, pa, lin(0)) and \
+                            eqv(s, pb, lin(0)) and eqv(s, la, n) and eqv(s, lb, n):
+                        occ0 = True
+                elif g[0] == 'sfind' and g[2] == 'this.mWord' and g[3] == other + '.mWord' and g[5] is not None and \
+                        eqv(s, g[5], lin(0)):
+                    occ0 = True
+            ok = ok and occ0
+            why = 'returns true without establishing that the other key is a non-empty prefix'
+        elif falsy:
+            # must imply that the prefix relation does not hold for any content consistent with the path
+            ok = not sat(s.cons + [ge(n, 1), ge(m, 1), le(n, m)])      # an empty word or n > m
+            for g in s.ghost:
+                if g[0] == 'strcmp':
+                    (ra, pa, la), (rb, pb, lb), r = g[1:]
+                    if ra == other_r:
+                        (ra, pa, la), (rb, pb, lb) = (rb, pb, lb), (ra, pa, la)
+                    differs = entails(s.cons, lt(r, 0)) or entails(s.cons, gt(r, 0))
+                    if ra == this_r and rb == other_r and differs and eqv(s, pa, lin(0)) and eqv(s, pb, lin(0)) and \
+                            eqv(s, lb, n) and (eqv(s, la, n) or entails(s.cons, lt(la, n))):
+                        ok = True      # the first n characters differ, or this word is shorter than the other
+                elif g[0] == 'sfind' and g[2] == 'this.mWord' and g[3] == other + '.mWord':
+                    kind, pos, k = g[1], g[4], g[5]
+                    if kind == 'find' and eqv(s, pos, lin(0)) and (k is None or entails(s.cons, ge(k, 1))):
+                        ok = True      # the first occurrence is not at 0
+                    if kind == 'rfind' and k is None:
+                        ok = True      # no occurrence at any position <= pos, in particular not at 0
+            why = 'returns false although the other key may be a non-empty prefix'
+        else:
+            ok = False
+            why = 'the result is not decided on the path'
+        chk.check(ok, 'R4', f.name, 'startsWith( other) is true exactly when other is a non-empty prefix of this long '
+                  'key', f.loc(), '' if ok else '%s: path [%s]' % (why, '; '.join(s.trail[-6:])))
+    chk.require(count >= 2, 'startsWith: only %d decided paths' % count)
+
+
 def run(chk):
     prog, units = rules.prog_args_program()
     chk.units = units
@@ -244,11 +331,15 @@ def run(chk):
         'comparisons end in throw, the store is unreachable without the loop, no exit from the search loop before '
         'every argument was compared exactly, prefix matching guarded by the abbreviation flag, ambiguity throws; '
         'plus exhaustive truth tables (Engine B) of ArgumentKey::operator== and mismatch() over all '
-        'assignments of empty/equal/different short and long keys. Not decided: parsing of key specifications.')
+        'assignments of empty/equal/different short and long keys; ArgumentKey::startsWith is proved to be exactly the '
+        'non-empty-prefix predicate from the meaning of the std::string operation it is based on (Engine C observation '
+        'facts). Not decided: parsing of key specifications.')
     chk.assumptions = ['std::vector/std::string behave as documented']
     chk.rule('R1', 'duplicate / contradicting keys are refused when an argument is added', 10)
     chk.rule('R2', 'lookup: exact match wins, abbreviation only if enabled, ambiguity throws', 4)
     chk.rule('R3', 'key algebra of operator== / mismatch()', 3)
+    chk.rule('R4', 'startsWith() is exactly the non-empty-prefix predicate on the long keys', 2)
     r1(chk, prog)
     r2(chk, prog)
     r3(chk, prog)
+    r4_prefix(chk, prog)
